@@ -161,6 +161,7 @@ type world struct {
 
 	electionTick, heartbeatTick int
 	oldReader                   io.Reader
+	real0                       float64
 }
 
 // detReader feeds etcd raft's randomized election timeouts (crypto/rand.Reader
@@ -181,7 +182,7 @@ func newWorld(t *testing.T, c *sim.Case, res *sim.Result) *world {
 	dir := filepath.Join(sim.Scratch(), fmt.Sprintf("cw%d", worldSeq))
 	_ = os.RemoveAll(dir)
 	_ = os.MkdirAll(dir, 0o755)
-	w := &world{t: t, c: c, res: res, dir: dir, start: time.Now(), canon: map[uint64][]string{}}
+	w := &world{t: t, c: c, res: res, dir: dir, start: time.Now(), canon: map[uint64][]string{}, real0: realNow()}
 	w.baseDelay = time.Duration(c.CfgInt("base_delay_ms", 1)) * time.Millisecond
 	w.electionTick = int(c.CfgInt("election_tick", 10))
 	w.heartbeatTick = int(c.CfgInt("heartbeat_tick", 2))
@@ -290,7 +291,9 @@ func (w *world) openNode(idx int, dir string, inc int, metas []manifest.RegionMe
 			err = fmt.Errorf("open store %d panicked: %v", idx+1, r)
 		}
 	}()
+	t0 := realNow()
 	db := NoKV.Open(dbOptions(dir))
+	dbg("open s%d inc%d %.1fms", idx+1, inc, (realNow()-t0)*1000)
 	n = &node{idx: idx, id: uint64(idx + 1), inc: inc, dir: dir, db: db, tick: 100 * time.Millisecond,
 		applied: map[uint64][]applyRec{}, tagCount: map[string]int{}, respTag: map[*pb.RaftCmdResponse]string{},
 		isLeader: map[uint64]bool{}, lostAt: map[uint64]int64{}, term: map[uint64]uint64{}}
@@ -752,6 +755,13 @@ func (w *world) crash(idx int) bool {
 		w.res.Probes["image_error"]++
 		return false
 	}
+	if dbgOn {
+		ents, _ := os.ReadDir(img)
+		for _, e := range ents {
+			fi, _ := e.Info()
+			dbg("  img %s %d", e.Name(), fi.Size())
+		}
+	}
 	n.dead = true
 	w.zombies = append(w.zombies, n)
 	ph := &node{idx: idx, id: n.id, inc: n.inc, dir: img, down: true, tick: n.tick,
@@ -828,4 +838,5 @@ func (w *world) shutdown() {
 	crand.Reader = w.oldReader
 	verifhook.Reset()
 	_ = os.RemoveAll(w.dir)
+	dbg("run %d: %.0fms real, %d steps, %.1fs simulated", w.c.Run, (realNow()-w.real0)*1000, w.res.Steps, w.res.SimTime.Seconds())
 }
